@@ -201,6 +201,36 @@ theorem rank_run' (env : List Beh) (sched : List Tid) (i : Nat) :
         have := ih s' h' (by rw [hpc]; exact hb) hi'
         simp only [hu, if_false]; rw [hpc] at this; omega
 
+/-- "Interrupted, or still at the `except` clause" is stable, and the thread object stays. -/
+theorem exc_or_intr_run (env : List Beh) (i : Nat) : ∀ (sched : List Tid) (s : Sys), LInv s →
+    (s.net i).pc ≠ .unborn → ((s.net i).intr = true ∨ (s.net i).pc = .exc) →
+      ((run env s sched).net i).intr = true ∨ ((run env s sched).net i).pc = .exc := by
+  intro sched
+  induction sched with
+  | nil => intro s _ _ hi; exact hi
+  | cons u us ih =>
+    intro s h hb hi
+    simp only [run]
+    cases hst : step env s u with
+    | none => exact ih s h hb hi
+    | some s' =>
+      have h' := step_inv env s s' u h hst
+      by_cases hu : u = .net i
+      · subst hu
+        obtain ⟨hr, hi'⟩ := rank_own' env s s' i h hst hi
+        have hb' : (s'.net i).pc ≠ .unborn := by
+          intro hc; rw [hc] at hr
+          have := rank_le (s.net i).pc
+          have h23 : NPc.unborn.rank = 23 := rfl
+          omega
+        exact ih s' h' hb' (.inl hi')
+      · have hpc := pc_other env s s' u h hst i hb hu
+        have hi' : (s'.net i).intr = true ∨ (s'.net i).pc = .exc := by
+          rcases hi with hi | hi
+          · exact .inl (intr_sticky env s s' u h hst i hb hi)
+          · exact .inr (by rw [hpc]; exact hi)
+        exact ih s' h' (by rw [hpc]; exact hb) hi'
+
 /-- The action at the `except` clause is always enabled; it sets the flag and enters
 `_handle_exception`. -/
 theorem exc_step (env : List Beh) (s : Sys) (i : Nat) (hpc : (s.net i).pc = .exc) :
